@@ -20,5 +20,5 @@ def run(ctx):
         ctx.guard("C06", "traits", lambda: convert.trait_forms(ctx, prog))
         ctx.guard("C06", "limit", lambda: normal.run_limit_agreement(ctx, prog))
         ctx.guard("C06", "isnorm", lambda: normal.is_normalized_both(ctx, prog))
-        ctx.guard("C06", "writers", lambda: tail.classify_writers(ctx, prog))
+        ctx.guard("C06", "writers", lambda: tail.classify_writers(ctx, prog, scope=r"(normalize|from_raw_form|init_from_raw_form|hash_dual::algorithms::compress|core::convert::From<internals::hash::FuzzyHashData<S1, S2, false>>)", floor=3))
     return ctx.finish(EXPL, ["slice::fill has its documented meaning"])
